@@ -17,8 +17,8 @@
     `dmaxGas`  — result of psf.grace (fsolve + minimize),
     `dpRoot`   — root returned by fsolve inside psf.sintef_d50 (We > 350),
     `rhoA rhoB`— the two methane densities of wang_etal (Peng-Robinson EOS) giving the speed of sound.
-  `None` is `Option.none`.  An attribute that was never set (ModelBase.alpha_gas after
-  model_gas='wang_etal', pdf_gas='rosin-rammler') makes `get_distributions` raise: `Option.none` result.
+  `None` is `Option.none`.  `getDist` returns `Option.none` where `get_distributions` would read an attribute that was
+  never set (no longer reachable from `mbGas` / `mbOil` since fix 99832ec).
 -/
 import TamocV.Num
 import TamocV.Proto
@@ -223,18 +223,12 @@ def liEtalModel (dmaxGas : α) (Uc d0 q rho_p mu_p sigma rho _mu : α) (isGas : 
     let f := rrFit (0 : α) none 1.8
     (f.1, none, f.2.1, f.2.2)
 
-/-- the void fraction `n = q_gas / (q_gas + q_oil)` -/
-def voidFraction (qGas qOil : α) : α := qGas / (qGas + qOil)
-
-/-- `Uc` of li_etal: `4 q_gas/(π d0²)/n` (gas) or `4 q_oil/(π d0²)/(1-n)` (liquid) -/
-def liEtalUc (d0 qGas qOil : α) (fpType : Nat) : α :=
-  let n := voidFraction qGas qOil
-  if fpType = 0 then 4 * qGas / (pi * Num.npow d0 2) / n else 4 * qOil / (pi * Num.npow d0 2) / (1 - n)
+/-- `Uc = 4. * (q_gas + q_oil) / (np.pi * d0**2)` — the same for both phases (since fix 9f1b754 the void fraction is no
+    longer computed: q_gas/n = q_oil/(1-n) = q_gas + q_oil) -/
+def liEtalUc (d0 qGas qOil : α) (_fpType : Nat) : α := 4 * (qGas + qOil) / (pi * Num.npow d0 2)
 
 /-- the denominators evaluated by `li_etal` before it looks at the flow rate of the requested phase -/
-def liEtalDenoms (d0 qGas qOil : α) (fpType : Nat) : List α :=
-  let n := voidFraction qGas qOil
-  [qGas + qOil, pi * Num.npow d0 2, if fpType = 0 then n else 1 - n]
+def liEtalDenoms (d0 _qGas _qOil : α) (_fpType : Nat) : List α := [pi * Num.npow d0 2]
 
 def liEtal (dmaxGas : α) (d0 : α) (mGas : List α) (rhoGas : α) (mOil : List α) (rhoOil mu_p sigma rho mu : α)
     (fpType : Nat) : α × Option α × α × α :=
@@ -320,9 +314,9 @@ def mbGas (dmaxGas rhoA rhoB : α) (modelGas pdfGas nbins : Nat) (d0 mGas mOil :
   if modelGas = 0 then
     let w := wang dmaxGas rhoA rhoB d0 [mGas] rhoGas muGas sigmaGas rho mu [mOil] rhoOil P
     if pdfGas = 0 then
-      -- `self.d50_gas, self.k_gas, self.sigma_gas = psf.ln2rr(...)`: alpha lands in sigma_gas, alpha_gas is never set
+      -- `self.d50_gas, self.k_gas, self.alpha_gas = psf.ln2rr(self.d50_gas, self.sigma_ln_gas)`   (fix 99832ec)
       let c := ln2rr w.1 w.2.2.2.2
-      getDist 0 nbins c.1 c.2.1 none w.2.2.2.2
+      getDist 0 nbins c.1 c.2.1 (some c.2.2) w.2.2.2.2
     else getDist 1 nbins w.1 0 none w.2.2.2.2
   else
     let l := liEtal dmaxGas d0 [mGas] rhoGas [mOil] rhoOil muGas sigmaGas rho mu 0
